@@ -142,12 +142,22 @@ impl RdbEngine {
         
         println!("RDB: Starting dump to {}", temp_path.display());
         
+        #[cfg(feature = "verif")]
+        let _verif_save_scope = VerifSaveScope::begin();
+        
         // Write to temporary file
         self.write_snapshot(storage, &temp_path)?;
+        
+        #[cfg(feature = "verif")]
+        crate::verif::rdb_step("rename")
+            .map_err(|e| FerrousError::Io(format!("Failed to rename RDB file: {}", e)))?;
         
         // Atomic rename
         std::fs::rename(&temp_path, &self.file_path)
             .map_err(|e| FerrousError::Io(format!("Failed to rename RDB file: {}", e)))?;
+        
+        #[cfg(feature = "verif")]
+        _verif_save_scope.completed();
         
         // Update last save time
         {
@@ -404,6 +414,10 @@ impl RdbEngine {
     
     /// Write snapshot to file
     fn write_snapshot(&self, storage: &Arc<StorageEngine>, path: &Path) -> Result<()> {
+        #[cfg(feature = "verif")]
+        crate::verif::rdb_step("open")
+            .map_err(|e| FerrousError::Io(format!("Failed to create RDB file: {}", e)))?;
+        
         let file = OpenOptions::new()
             .write(true)
             .create(true)
@@ -433,14 +447,23 @@ impl RdbEngine {
                 
                 // Write each key-value pair
                 for key in keys {
+                    #[cfg(feature = "verif")]
+                    crate::verif::RDB_HOLD.reach("before-get", &key, &|| vec![key.clone()]);
+                    
                     // Get value
                     match storage.get(db_idx, &key)? {
                         GetResult::Found(value) => {
+                            #[cfg(feature = "verif")]
+                            crate::verif::RDB_HOLD.reach("between-get-and-ttl", &key, &|| vec![key.clone()]);
+                            
                             // Get TTL if any
                             let ttl = storage.ttl(db_idx, &key)?;
                             
                             // Write key-value pair
                             writer.write_key_value(&key, &value, ttl)?;
+                            
+                            #[cfg(feature = "verif")]
+                            crate::verif::RDB_HOLD.reach("after-key", &key, &|| vec![key.clone()]);
                         }
                         _ => {
                             // Key doesn't exist or expired, skip
@@ -456,10 +479,39 @@ impl RdbEngine {
         // Write CRC64 checksum
         writer.write_checksum()?;
         
+        #[cfg(feature = "verif")]
+        crate::verif::rdb_step("flush")
+            .map_err(|e| FerrousError::Io(format!("Failed to flush RDB file: {}", e)))?;
+        
         // Ensure all data is flushed
         writer.flush()?;
         
         Ok(())
+    }
+}
+
+/// Brackets one save for the verification fail points (feature `verif`).
+#[cfg(feature = "verif")]
+struct VerifSaveScope {
+    ok: std::cell::Cell<bool>,
+}
+
+#[cfg(feature = "verif")]
+impl VerifSaveScope {
+    fn begin() -> Self {
+        crate::verif::rdb_save_begin();
+        VerifSaveScope { ok: std::cell::Cell::new(false) }
+    }
+    
+    fn completed(&self) {
+        self.ok.set(true);
+    }
+}
+
+#[cfg(feature = "verif")]
+impl Drop for VerifSaveScope {
+    fn drop(&mut self) {
+        crate::verif::rdb_save_end(self.ok.get());
     }
 }
 
@@ -567,6 +619,9 @@ impl<W: Write> RdbWriter<W> {
                 // Get all items and write them
                 let len = skiplist.len();
                 self.write_length(len)?;
+                
+                #[cfg(feature = "verif")]
+                crate::verif::RDB_HOLD.reach("zset-len-range", key, &|| vec![key.to_vec()]);
                 
                 // Note: This is a suboptimal approach since we need to materialize
                 // all members in memory. A better approach would be to have a streaming
@@ -682,6 +737,9 @@ impl<W: Write> RdbWriter<W> {
     
     /// Write raw bytes
     fn write_raw(&mut self, data: &[u8]) -> io::Result<()> {
+        #[cfg(feature = "verif")]
+        crate::verif::rdb_step("write")?;
+        
         self.writer.write_all(data)?;
         self.bytes_written += data.len() as u64;
         // Update CRC (simplified - real implementation would use CRC64)
